@@ -18,7 +18,9 @@ import linecache
 import os
 import posixpath
 import random
+import signal
 import sys
+import time
 import tokenize  # noqa: F401  (imported here so it captures the *real* open)
 import traceback
 import types
@@ -33,8 +35,10 @@ _REAL = {
     "os_makedirs": os.makedirs, "os_listdir": os.listdir,
     "os_getcwd": os.getcwd, "os_getcwdb": os.getcwdb, "os_chdir": os.chdir,
     "os_lstat": os.lstat, "os_chmod": os.chmod, "os_access": os.access, "os_utime": os.utime,
-    "islink": os.path.islink, "os__exit": os._exit,
+    "islink": os.path.islink, "os__exit": os._exit, "sleep": time.sleep,
 }
+SLEEP_BUDGET = 600.0     # simulated seconds a tool may spend blocked before it counts as hung
+WALL_BACKSTOP = 45       # real seconds; the slowest legitimate run takes about 1 s unloaded
 FAKE_FD_BASE = 1_000_000   # never a valid real descriptor: a stray real syscall gets EBADF
 
 SIMROOT = "/simfs/"
@@ -160,6 +164,8 @@ class SimRawPipe(io.RawIOBase):
         return True
 
     def fileno(self):
+        if self.name != "<stdin>":
+            raise io.UnsupportedOperation("fileno")
         return 0
 
     def isatty(self):
@@ -401,6 +407,7 @@ class SimFS:
         self.removed = []   # paths removed by the tool
         self.aliases = {}       # path -> "f<k>" in order of first use (temp names may be random)
         self.modes = {}         # path -> permission bits set by the tool
+        self.fifos = {}         # path -> (bytes, ChunkSchedule, damaged offsets): named pipes
         self.whiteouts = set()  # real paths the tool "removed" (the real file is never touched)
         self.dirs = set()       # directories the tool created
         self.log = EventLog()
@@ -439,7 +446,7 @@ class SimFS:
 
     def exists(self, path, vpath=None):
         p = vpath or self.norm(path)
-        if p in self.files:
+        if p in self.files or p in self.fifos:
             return True
         pre = p.rstrip("/") + "/"
         return any(k.startswith(pre) for k in self.files) or p.rstrip("/") + "/" == SIMROOT
@@ -457,6 +464,18 @@ class SimFS:
         kind = kinds.pop()
         if binary and encoding is not None:
             raise ValueError("binary mode doesn't take an encoding argument")
+        if path in self.fifos and kind == "r" and not plus:
+            data, sched, dmg = self.fifos[path]
+            raw = SimRawPipe(data, sched, self.log, name=name)
+            buf = io.BufferedReader(raw)
+            self.handles.append(buf)
+            if not binary:
+                txt = io.TextIOWrapper(buf, encoding=io.text_encoding(encoding), errors=errors, newline=newline)
+                self.handles.append(txt)
+                return txt
+            tr = TracedReader(buf, path, dmg)
+            self.readers.setdefault(path, []).append(tr)
+            return tr
         if kind == "r":
             if path not in self.files:
                 raise FileNotFoundError(2, "No such file or directory", name)
@@ -595,6 +614,7 @@ class World:
         self.stderr = io.StringIO()
         self.clock = StepClock()
         self._saved = None
+        self.slept = 0.0
         self.fds = {}            # fake descriptor -> SimRawFile (os.open on SimFS paths)
         self._next_fd = FAKE_FD_BASE
 
@@ -706,6 +726,13 @@ class World:
             return None
         raise FileNotFoundError(2, "No such file or directory", path)
 
+    def _sleep(self, secs):
+        """Discrete-event time: sleeping costs nothing real; past the budget the tool is hung."""
+        self.slept += max(0.0, float(secs))
+        if self.slept > SLEEP_BUDGET:
+            self.clock.exceeded = True
+            raise StepBudgetExceeded("slept %.0f simulated seconds" % self.slept)
+
     def _os__exit(self, code=0):
         raise HardExit(code)
 
@@ -735,6 +762,8 @@ class World:
             vp = None
         if vp is None:
             return _REAL["os_stat"](path, *a, **kw)
+        if vp in self.fs.fifos:
+            return self._stat_result(0, fifo=True, path=vp)
         d = self.fs.files.get(vp)
         if d is not None:
             return self._stat_result(len(d), path=vp)
@@ -861,7 +890,8 @@ class World:
         if not posixpath.isabs(p):
             return posixpath.normpath(self.vcwd + p)
         p = posixpath.normpath(p)
-        if writing or p.startswith(SIMROOT) or p in self.fs.files or p in self.fs.whiteouts:
+        if writing or p.startswith(SIMROOT) or p in self.fs.files or p in self.fs.whiteouts \
+                or p in self.fs.fifos:
             return p
         return None
 
@@ -918,6 +948,8 @@ class World:
         vp = self._vpath(path)
         if vp is None:
             return _REAL["getsize"](path)
+        if vp in self.fs.fifos:
+            return 0
         d = self.fs.files.get(vp)
         if d is None:
             raise FileNotFoundError(2, "No such file or directory", path)
@@ -964,6 +996,7 @@ class World:
         os.lstat, os.chmod, os.access, os.utime = self._os_stat, self._os_chmod, self._os_access, self._os_utime
         os.path.islink = self._islink
         os._exit = self._os__exit
+        time.sleep = self._sleep
         os.getcwdb = lambda: self._os_getcwd().encode()
         sys.stdin = _StdinShell(self.stdin_buf)
         sys.stdout = self.stdout_txt
@@ -993,6 +1026,7 @@ class World:
                                                    _REAL["os_utime"])
         os.path.islink = _REAL["islink"]
         os._exit = _REAL["os__exit"]
+        time.sleep = _REAL["sleep"]
         sys.stdin, sys.stdout, sys.stderr = s["stdin"], s["stdout"], s["stderr"]
         self._saved = None
         return False
@@ -1066,7 +1100,7 @@ class Outcome:
         return (self.exit, self.detail, self.hang)
 
 
-def run_tool(world: World, tool: str, argv, budget: int) -> Outcome:
+def run_tool(world: World, tool: str, argv, budget: int, wall=None) -> Outcome:
     """Run coco.<tool>.start(argv) as one simulated process inside `world`
     (which must already be entered).  Never lets a tool exception escape."""
     mod = tool_module(tool)
@@ -1077,20 +1111,33 @@ def run_tool(world: World, tool: str, argv, budget: int) -> Outcome:
     clock.exceeded = False
     clock.install(_tool_codes(tool))
     hard = False
+
+    def _stalled(signum, frame):
+        clock.exceeded = True
+        raise StepBudgetExceeded("wall-clock backstop: blocked outside any loop")
+    old = None
+    try:
+        old = signal.signal(signal.SIGALRM, _stalled)
+        signal.alarm(int(wall or WALL_BACKSTOP))
+    except ValueError:      # not the main thread
+        old = None
     try:
         try:
             mod.start(list(argv))
             out.exit, out.detail = "ok", "return"
         except SystemExit as e:
             c = e.code
-            if c is None or c == 0:
-                out.exit, out.detail = "ok", "SystemExit(0)"
+            # what the parent sees is the low byte: sys.exit(256) or sys.exit(30720) is status 0
+            if isinstance(c, bool):
+                c = int(c)
+            if c is None or (isinstance(c, int) and c & 0xFF == 0):
+                out.exit, out.detail = "ok", "SystemExit(0)" if not c else "SystemExit(%d -> status 0)" % c
             else:
                 out.exit = "fail"
-                out.detail = "SystemExit(%s)" % (c if isinstance(c, int) else "str")
+                out.detail = "SystemExit(%s)" % (c & 0xFF if isinstance(c, int) else "str")
         except HardExit as e:
             hard = True
-            if e.code in (0, None):
+            if e.code is None or (isinstance(e.code, int) and e.code & 0xFF == 0):
                 out.exit, out.detail = "ok", "os._exit(0)"
             else:
                 out.exit, out.detail = "fail", "os._exit(%s)" % (e.code,)
@@ -1104,6 +1151,9 @@ def run_tool(world: World, tool: str, argv, budget: int) -> Outcome:
                 out.trace = "".join(traceback.format_exception(e))
     finally:
         clock.uninstall()
+        if old is not None:
+            signal.alarm(0)
+            signal.signal(signal.SIGALRM, old)
     if clock.exceeded:
         out.exit, out.detail, out.hang = "fail", "StepBudgetExceeded", True
     out.steps = clock.count
